@@ -41,6 +41,37 @@ def is_exact(arr):
     return True
 
 
+def constant_grid_safe(x, n, exact):
+    """piecewise-constant interpolation compares grid points with samples by `<=`: an interior grid point that (nearly)
+    coincides with a sample is kept only when both are exactly representable and bitwise equal"""
+    g = np.linspace(x[0], x[-1], n)
+    span = Fraction(float(x[-1])) - Fraction(float(x[0]))
+    for i in range(1, n - 1):
+        gi = Fraction(float(g[i]))
+        exact_gi = Fraction(float(x[0])) + span * i / (n - 1)
+        for xj in x[1:-1]:
+            d = gi - Fraction(float(xj))
+            if abs(d) < Fraction(1, 10 ** 9) * span:
+                if not (exact and d == 0 and gi == exact_gi):
+                    return False
+    return True
+
+
+def closest_ties_safe(x, xr, exact):
+    """the 'closest' search compares the rounded differences q - x_lo and x_hi - q: a reference point (nearly) midway between
+    two samples is kept only when everything is exactly representable and the tie is exact"""
+    xs = [Fraction(float(v)) for v in x]
+    for q_ in xr:
+        qf = Fraction(float(q_))
+        for lo, hi in zip(xs[:-1], xs[1:]):
+            if lo < qf < hi:
+                d = (qf - lo) - (hi - qf)
+                if abs(d) < Fraction(1, 10 ** 9) * (hi - lo) and not (exact and d == 0):
+                    return False
+                break
+    return True
+
+
 class DrawRecorder:
     """replacement for numpy.random.normal during Weaver.noise: returns a fixed dyadic draw, records the arguments"""
 
@@ -237,6 +268,8 @@ Definition prog_ok (x : option (list Qc)) (y : list Qc) (e : option exn) (steps 
                 c["fn_kind"] = "poly"
             return c
         if name == "integral_match":
+            if not closest_ties_safe(x, np.asarray(w.reference_x, dtype=float), exact and is_exact(w.reference_x)):
+                return None    # a reference point (nearly) midway between two samples: the rounded comparison may go either way (DESIGN 3.6)
             return {"op": name, "rt": rng.choice(["trapezoid", "rectangle"]), "rr": rng.choice(["rectangle", "rectangle", "trapezoid"]),
                     "alpha": rng.choice([1.0, 1.0, 2.0, 0.5])}
         if name == "interpolate":
@@ -246,6 +279,8 @@ Definition prog_ok (x : option (list Qc)) (y : list Qc) (e : option exn) (steps 
             # an explicit grid is compared with == against the current end points: only when they are exact dyadics (DESIGN 3.6)
             if rng.random() < 0.5 or not exact:
                 nn = rng.randint(2, min(MAXLEN, 2 * n + 3))
+                if method == "constant" and not constant_grid_safe(x, nn, exact):
+                    method = "linear"      # a grid point within rounding of a sample: `<=` may go either way in floats (DESIGN 3.6)
                 return {"op": name, "n": nn, "method": method}
             M = rng.randint(2, min(MAXLEN, n + 6))
             inner = sorted({float(x[0] + (x[-1] - x[0]) * rng.randint(1, 63) / 64) for _ in range(M - 2)})
